@@ -36,7 +36,123 @@ CHECKS = {
          "replayed natively with Kani's concrete playback before a VIOLATION is printed.",
     technique="Kani bounded model checking over the full stated domain, concrete-playback replay",
     engine="kani"),
+ 'C01': dict(
+    category='other',
+    text='Compositional: per-stage contracts decided by solvers over the real code (MIR->SMT per (format, exponent, leading-zero) class with the significand symbolic; Kani/CBMC for digit loops, rounding, vectors; ground SMT for tables); the step from contracts to the end-to-end statement is a written argument (DESIGN.md section 5). Instantiated for f64: Eisel-Lemire and Bellerophon classes, fast-path window, round primitive, slow-path glue (trace stubs), digit loops, tables, sticky-digit lemma.',
+    design_ref='DESIGN.md sections 5, 6 (C01)',
+    note='Trusted: composition argument (DESIGN 5), one correctly rounded IEEE multiply/divide on exact operands (O-IEEE), rustc MIR = compiled code, Kani/CBMC, z3/cvc5. Digit strings longer than the harness shapes (24 / 45 digits) are argued, not decided.',
+    technique='compositional: MIR->SMT (LIA) + Kani BMC + ground SMT',
+    engine='mir2smt+kani'),
+ 'C02': dict(
+    category='other',
+    text='Compositional: per-stage contracts decided by solvers over the real code (MIR->SMT per (format, exponent, leading-zero) class with the significand symbolic; Kani/CBMC for digit loops, rounding, vectors; ground SMT for tables); the step from contracts to the end-to-end statement is a written argument (DESIGN.md section 5). Instantiated for f32 (own tie window, 114 digits, 40 guard bits); single rounding: the f32 instantiation is checked directly against the binary32 rounding definition.',
+    design_ref='DESIGN.md sections 5, 6 (C02)',
+    note='Trusted: composition argument (DESIGN 5), one correctly rounded IEEE multiply/divide on exact operands (O-IEEE), rustc MIR = compiled code, Kani/CBMC, z3/cvc5. Digit strings longer than the harness shapes (24 / 45 digits) are argued, not decided.',
+    technique='compositional: MIR->SMT (LIA) + Kani BMC + ground SMT',
+    engine='mir2smt+kani'),
+ 'C03': dict(
+    category='other',
+    text='Derived: shortest / 9-17-digit renderings w*10^q of x satisfy RN(w*10^q)=x by definition, so the round trip is the correct-rounding contract of the fast/moderate path for <=17-digit significands (decided per class); exact expansions stay below MAX_DIGITS (sticky lemma, decided) and go through the digit-loop contracts.',
+    design_ref='DESIGN.md section 6 (C03)',
+    note='Trusted: composition argument (DESIGN 5), one correctly rounded IEEE multiply/divide on exact operands (O-IEEE), rustc MIR = compiled code, Kani/CBMC, z3/cvc5. Digit strings longer than the harness shapes (24 / 45 digits) are argued, not decided. Renderings are characterised, not computed (the renderers are not in the repository).',
+    technique='derived from solver-decided contracts (MIR->SMT, Kani, ground SMT)',
+    engine='mir2smt+kani'),
+ 'C04': dict(
+    category='other',
+    text='Every rustc-inserted assert and debug_assert! in the scalar kernels is an explicit terminator of the MIR built with debug assertions and overflow checks; a solver shows each unreachable for valid input, per class. Digit loops, rounding and glue: Kani (dev-profile semantics: any reachable panic fails). Big-integer capacity: ground bound from the MIR constants.',
+    design_ref='DESIGN.md section 6 (C04)',
+    note="One obligation family is NOT decided and is excluded from the claim (undecided_baseline.json U1: reachability of Eisel-Lemire's all-ones fallback below round()'s debug-assert range, debug builds only). O-CAP's bit-length abstraction is a written argument.",
+    technique='MIR(debug-assertions)->SMT reachability of assert terminators + Kani BMC',
+    engine='mir2smt+kani'),
+ 'C05': dict(
+    category='other',
+    text='Configurations differ in the moderate path, the vector back-end and the power source: Eisel-Lemire and Bellerophon are each proved equal to RN on the same classes; StackVec and HeapVec are proved against the same reference model; tables decided entry by entry.',
+    design_ref='DESIGN.md section 6 (C05)',
+    note="std's powf (system libm, FFI) used by std+compact builds is outside the technique. Trusted: composition argument (DESIGN 5), one correctly rounded IEEE multiply/divide on exact operands (O-IEEE), rustc MIR = compiled code, Kani/CBMC, z3/cvc5. Digit strings longer than the harness shapes (24 / 45 digits) are argued, not decided.",
+    technique='relational via common specification: MIR->SMT both implementations, Kani both back-ends',
+    engine='mir2smt+kani'),
+ 'C06': dict(
+    category='other',
+    text="The three cut mechanisms are decided separately: parse_number's 19-digit cut/flag/exponent (Kani, all digit values), the truncated-significand handling of the moderate path (w vs w+1, decline contract on [w,w+1]; MIR->SMT), parse_mantissa's MAX_DIGITS cut and sticky digit (Kani, `max` as parameter), and the sticky lemma (ground SMT with MAX_DIGITS from the MIR).",
+    design_ref='DESIGN.md section 6 (C06)',
+    note='Trusted: composition argument (DESIGN 5), one correctly rounded IEEE multiply/divide on exact operands (O-IEEE), rustc MIR = compiled code, Kani/CBMC, z3/cvc5. Digit strings longer than the harness shapes (24 / 45 digits) are argued, not decided.',
+    technique='Kani BMC (digit loops) + MIR->SMT (truncated moderate path) + ground SMT',
+    engine='mir2smt+kani'),
+ 'C07': dict(
+    category='other',
+    text='All (q, leading-zero) classes whose value can be subnormal, zero, in the top binade or infinite, for both moderate-path implementations and both formats; early-outs with the decimal exponent symbolic; the round primitive over its whole domain; exponent saturation of the digit loop over the full i32 range.',
+    design_ref='DESIGN.md section 6 (C07)',
+    note='Trusted: composition argument (DESIGN 5), one correctly rounded IEEE multiply/divide on exact operands (O-IEEE), rustc MIR = compiled code, Kani/CBMC, z3/cvc5. Digit strings longer than the harness shapes (24 / 45 digits) are argued, not decided.',
+    technique='MIR->SMT on boundary classes + symbolic-exponent early-out queries + Kani BMC',
+    engine='mir2smt+kani'),
+ 'C08': dict(
+    category='other',
+    text="Kani's memory-safety checks (pointer validity, bounds, unsafe preconditions) on the digit loops with unconstrained bytes, on all unsafe vector/big-integer code at every enumerated length with symbolic contents, plus solver obligations that every get_unchecked table index is in range.",
+    design_ref='DESIGN.md section 6 (C08)',
+    note='Clean panics are accepted (filtered by check class). Kani models the dev profile; release-mode wrapping is covered only where the index does not depend on digit values. No uninitialised-memory checker in Kani 0.68. Strings longer than 40 bytes outside the claim.',
+    technique='Kani BMC memory-safety checks + MIR->SMT index obligations',
+    engine='kani+mir2smt'),
+ 'C09': dict(
+    category='other',
+    text='Derived from correct rounding on both sides of every algorithm switch-over: the moderate path is proved for ALL significands of a class (not only those dispatched to it), the fast path for its whole window; RN is monotone.',
+    design_ref='DESIGN.md section 6 (C09)',
+    note='Trusted: composition argument (DESIGN 5), one correctly rounded IEEE multiply/divide on exact operands (O-IEEE), rustc MIR = compiled code, Kani/CBMC, z3/cvc5. Digit strings longer than the harness shapes (24 / 45 digits) are argued, not decided. No two-input query is made: each side is proved equal to RN of its own input.',
+    technique='derived: MIR->SMT per class on both sides of each seam + Kani digit-loop contract',
+    engine='mir2smt+kani'),
+ 'C10': dict(
+    category='other',
+    text='Relational Kani harnesses: the same symbolic digit array split at two points with compensated exponent yields identical (mantissa, exponent, flag); appended fraction zeros preserve the denoted value; the big-integer stage is entered with exponent e - #fraction digits for every split.',
+    design_ref='DESIGN.md section 6 (C10)',
+    note='Shapes up to 23 digits. The rest is C01/C02 (each path returns RN of the denoted value).',
+    technique='Kani BMC relational harnesses (two runs of the real code on one symbolic input)',
+    engine='kani'),
+ 'C12': dict(
+    category='other',
+    text='Kani/CBMC differential harnesses against textbook natural-number arithmetic: lengths enumerated, all limb values symbolic; the 64x64 multiplier abstracted by a call-log stub at large lengths; capacity edge (62 limbs) in every operation.',
+    design_ref='DESIGN.md section 6 (C12)',
+    note='long_mul only on tiny shapes (CBMC cost); real multiplier only at short lengths; HeapVec in thorough tier; 32-bit-limb targets not covered.',
+    technique='Kani BMC, shape concrete / contents symbolic, call-log stubs',
+    engine='kani'),
+ 'C13': dict(
+    category='other',
+    text='Inductive step with Kani: one operation with arbitrary arguments from an arbitrary valid state (length enumerated, contents symbolic) agrees with a reference sequence, keeps len <= capacity and leaves contents unchanged on failure; covers histories of any length because every valid state is constructible.',
+    design_ref='DESIGN.md section 6 (C13)',
+    note='HeapVec: thorough tier. unsafe fns exercised through their safe callers only.',
+    technique='Kani BMC inductive step',
+    engine='kani'),
+ 'C15': dict(
+    category='other',
+    text='All non-alloc harnesses (digit loops, big-integer primitives, slow-path glue) re-run with the global allocation entry points replaced by a failing stub; a twin harness that allocates must fail.',
+    design_ref='DESIGN.md section 6 (C15)',
+    note='Bounded like the harnesses; paths outside them are covered only by the syntactic scan of the MIR for allocation paths (assumption).',
+    technique='Kani BMC with allocator stub (forbid_alloc)',
+    engine='kani'),
+ 'C16': dict(
+    category='other',
+    text='The same bytes through slice iterators, a custom cursor, a chain split at a symbolic point and a sentinel-dropping filter give the same Number / call trace (Kani); stale vector storage is nondeterministic in CBMC so reading it fails the contents checks.',
+    design_ref='DESIGN.md section 6 (C16)',
+    note='Thread interleavings are NOT addressed (Kani does not model threads): only the syntactic absence of mutable statics is reported.',
+    technique='Kani BMC over iterator shapes; nondeterministic uninitialised memory',
+    engine='kani'),
+ 'C19': dict(
+    category='other',
+    text='The shipped front-end sources are compiled from /repo with the library call replaced by a logger and compared with an independent reference scanner for every byte string of length 0..6 (quick) / 0..10 (thorough): consumed prefix, remainder, what reaches the library (trimmed digits, saturated exponent), sign, no panic.',
+    design_ref='DESIGN.md section 6 (C19)',
+    note='The library value itself is C01/C02. Sources are trimmed mechanically (crate attributes, extern crate, main/tests; two fns made pub).',
+    technique='Kani BMC over all byte strings of bounded length',
+    engine='kani'),
 }
+
+CHECKS["C14"] = dict(
+    category="other",
+    text="Ground SMT queries over the table constants AS COMPILED (bytes / literals from rustc's MIR dump of the current tree) "
+         "with the table index as the only free variable: every entry satisfies its defining inequalities (truncation, "
+         "normalisation, exactness); powers on the specification side are built by a multiplication chain inside the solver.",
+    design_ref="DESIGN.md sections 3 (E3), 6 (C14)",
+    note="On-demand powers of the compact/no_std configurations (u64::pow, std powf = system libm via FFI, bundled libm pow) are "
+         "not decided: FFI is outside the technique (stated in DESIGN.md).",
+    technique="ground SMT (z3/cvc5) over compiled constants, index symbolic",
+    engine="mir2smt")
 
 ALL = ["C%02d" % i for i in range(1, 20)]
 NOT_YET = "check not built yet in this round (planned, see DESIGN.md section 6)"
@@ -63,19 +179,19 @@ def main():
         "version": 1,
         "setup_cmd": "./setup.sh",
         "hooks": {
-            "guard": "cargo feature `verif` (none needed so far: no hook commit exists; all checks read private "
-                     "functions from rustc's MIR dump or use items that are already pub)",
-            "enable": "checks copy /repo's working tree to a scratch directory and build it there "
-                      "(MIR: cargo +nightly rustc -- -Zunpretty=mir; replay runner: cargo build with the configuration's features)",
+            "guard": "cargo feature `verif` (off by default)",
+            "enable": "checks copy /repo's working tree to a scratch directory and build it there; harness crates that need the "
+                      "hook depend on the copy with features = [..., \"verif\"] (MIR: cargo +nightly rustc -- -Zunpretty=mir; "
+                      "replay runner: cargo build with the configuration's features)",
             "baseline_off_cmd": "cd /repo && cargo test --workspace --no-fail-fast --offline",
-            "source_commits": [],
+            "source_commits": ["f165d18"],
             "add_only": True,
         },
         "engines": [
             {"name": "mir2smt", "path": "/verif/mir2smt", "serves_properties": sorted(CHECKS),
              "kind_free_text": "symbolic execution of rustc MIR (regenerated from /repo on every run) into SMT-LIB "
                                "(integer encoding for proofs, bit-vector encoding as fallback), z3 5.1.0 / cvc5 1.0.3 / z3 4.8.12 portfolio"},
-            {"name": "kani", "path": "/verif/kani", "serves_properties": sorted(k for k, v in CHECKS.items() if v["engine"] == "kani"),
+            {"name": "kani", "path": "/verif/kani", "serves_properties": sorted(k for k, v in CHECKS.items() if "kani" in v["engine"]),
              "kind_free_text": "Kani 0.68 / CBMC 6.11 proof harnesses in external crates with a path dependency on a scratch copy of /repo"},
             {"name": "runner", "path": "/verif/runner", "serves_properties": sorted(CHECKS),
              "kind_free_text": "replay of solver counterexamples and translator validation on the compiled crate"},
